@@ -257,8 +257,13 @@ impl CanonicalRequest {
                         pq.push_str(&qs);
                     }
 
-                    parts.uri =
-                        Uri::builder().path_and_query(pq).build().expect("failed to rebuild URI with new query string");
+                    // The merged request target can exceed what a URI can hold; that is the client's error, not ours.
+                    parts.uri = Uri::builder().path_and_query(pq).build().map_err(|e| {
+                        SignatureError::MalformedQueryString(format!(
+                            "Cannot merge form parameters into the request URI: {}",
+                            e
+                        ))
+                    })?;
                     body = Bytes::from("");
                 }
             }
